@@ -189,12 +189,16 @@ pub fn rtss_fixed_point(wl: &RosWorkload, which: Analysis) -> FixedPoint {
             .iter()
             .map(|c| c.cost_desc().build())
             .collect();
+        // the priority VALUES handed to the analysis only have to be order-isomorphic to the
+        // executor's registration order: half of the workloads use negative values
+        let total_w: u64 = wl.cbs.iter().map(|c| c.wcet).sum();
+        let shift: i32 = if total_w % 2 == 0 { wl.cbs.len() as i32 + 1 } else { 0 };
         let kinds: Vec<ros2::rr::CallbackType> = wl
             .cbs
             .iter()
             .map(|c| match (c.kind, c.known_prio) {
                 (CbKind::Timer, _) => ros2::rr::CallbackType::Timer,
-                (CbKind::Polled, true) => ros2::rr::CallbackType::Polled(c.prio as i32),
+                (CbKind::Polled, true) => ros2::rr::CallbackType::Polled(c.prio as i32 - shift),
                 (CbKind::Polled, false) => ros2::rr::CallbackType::PolledUnknownPrio,
             })
             .collect();
